@@ -88,6 +88,7 @@ Props ==
   /\ Assert(BusIsOwners(i, g), <<"C08 BusIsOwners", key, g, i>>)
   /\ Assert(NoPreempt(i, g, g2), <<"C08 NoPreempt", key, g, i, g2>>)
   /\ Assert(ExactSuccessor(i, g, g2), <<"C09 ExactSuccessor", key, g, i, g2>>)
+  /\ Assert(AbsGrantOK(cfg, st, i), <<"C09 refines WbArbiterAbs!GrantRel", key, g, i, g2>>)
   /\ (IF ~Export THEN TRUE ELSE PrintT(<<"EDGE", ToJson([key |-> key, g |-> g, g2 |-> g2,
           cyc  |-> [k \in Idx |-> i.intr[k].cyc],
           stb  |-> [k \in Idx |-> i.intr[k].stb],
